@@ -138,6 +138,16 @@ def run_gate(case):
     r = call("simulate", emulator.Simulator(g).simulate, basis, basis)
     if np.abs(np.asarray(r.array).T - M).max() > TOL:
         raise Violation(f"{name}: Simulator disagrees with the amplitude matrix", key="simulator-disagrees")
+    # the gate keeps implementing its matrix whatever the caller does to the arrays the gate handed out
+    for arr in (g.U_full, g.U):
+        try:
+            arr[...] = arr @ arr
+        except (ValueError, TypeError):
+            pass
+    M2 = amplitude_matrix(g, n, "Heralded" in name)
+    if np.abs(M2 - M).max() > TOL:
+        raise Violation(f"{name}{kw}: the gate acts differently after the caller overwrote, in place, the matrix it "
+                        f"got from U / U_full", key="gate-matrix-aliased")
     return {"nontrivial": np.abs(V - np.eye(2 ** n)).max() > 1e-9, "labels": [name]}
 
 
